@@ -187,8 +187,11 @@ def prove(ctx, props_module, extra_targets=("esrmodel",), leanchecker=False):
         except Exception as e:                       # extractor could not read the source shape
             res["extract"] = dict(error=repr(e))
             res["failed"].append("extract: %r" % (e,))
-        props_path = os.path.join(LEAN, *props_module.split(".")) + ".lean"
-        names, nex = theorem_names(props_path)
+        modules = [props_module] if isinstance(props_module, str) else list(props_module)
+        names, nex = [], 0
+        for m_ in modules:
+            n_, e_ = theorem_names(os.path.join(LEAN, *m_.split(".")) + ".lean")
+            names += n_; nex += e_
         res["obligations"] = len(names)
         res["examples"] = nex
         res["theorems"] = names
@@ -199,19 +202,19 @@ def prove(ctx, props_module, extra_targets=("esrmodel",), leanchecker=False):
             if p.returncode != 0:
                 res["log"] += p.stdout[-4000:] + p.stderr[-2000:]
                 res["failed"].append("build of executable model (%s)" % tgt)
-        p = subprocess.run(["lake", "build", props_module], cwd=LEAN, capture_output=True, text=True)
+        p = subprocess.run(["lake", "build"] + modules, cwd=LEAN, capture_output=True, text=True)
         res["build_ok"] = p.returncode == 0
         if p.returncode != 0:
             out = p.stdout + p.stderr
             res["log"] += out[-6000:]
             res["failed"] += _failed_decls(out)
             if not res["failed"]:
-                res["failed"].append("lake build %s" % props_module)
+                res["failed"].append("lake build %s" % " ".join(modules))
         else:
             # audit
             aud = os.path.join(LEAN, ".audit_%s_%d.lean" % (ctx.pid, os.getpid()))
             with open(aud, "w") as fh:
-                fh.write("import %s\n" % props_module)
+                fh.write("".join("import %s\n" % m_ for m_ in modules))
                 for n in names:
                     fh.write("#print axioms %s\n" % n)
             p = subprocess.run(["lake", "env", "lean", aud], cwd=LEAN, capture_output=True, text=True)
@@ -234,10 +237,10 @@ def prove(ctx, props_module, extra_targets=("esrmodel",), leanchecker=False):
             if hits:
                 res["failed"] += ["forbidden token: " + h for h in hits]
             if leanchecker and not res["failed"]:
-                p = subprocess.run(["lake", "env", "leanchecker", props_module], cwd=LEAN, capture_output=True, text=True)
+                p = subprocess.run(["lake", "env", "leanchecker"] + modules, cwd=LEAN, capture_output=True, text=True)
                 res["leanchecker"] = p.returncode
                 if p.returncode != 0:
-                    res["failed"].append("leanchecker %s: %s" % (props_module, (p.stdout + p.stderr)[-500:]))
+                    res["failed"].append("leanchecker %s: %s" % (" ".join(modules), (p.stdout + p.stderr)[-500:]))
     res["ok"] = res["build_ok"] and not res["failed"] and res["discharged"] == res["obligations"]
     res["wall_s"] = round(time.time() - t0, 2)
     ctx.proof = res
@@ -369,7 +372,8 @@ def write_evidence(ctx, mod, nviol):
         samples=ctx.samples or ["(none)"],
         obligations=int(pr.get("obligations", 0)) + int(ctx.extra.get("corr_obligations", 0)),
         discharged=int(pr.get("discharged", 0)) + int(ctx.extra.get("corr_discharged", 0)),
-        checker_cmd="cd lean && lake build %s && lake env lean <#print axioms of every theorem in it>" % getattr(mod, "LEAN_MODULE", ""),
+        checker_cmd="cd lean && lake build %s && lake env lean <#print axioms of every theorem in them>" % (
+            getattr(mod, "LEAN_MODULE", "") if isinstance(getattr(mod, "LEAN_MODULE", ""), str) else " ".join(mod.LEAN_MODULE)),
         trusted_base=["Lean 4.33.0 kernel", "axioms: propext, Classical.choice, Quot.sound (audited per theorem this run)",
                       "harness/extract.py (translator) and the correspondence harness", "mpi4py stand-in (harness/mpi_standin)"]
                      + list(getattr(mod, "TRUSTED", [])),
